@@ -61,10 +61,10 @@ ARCH_TRUNC = {0, 10, 5, 3}               # ip/sp are u32 fields in the context
 ARCH_W32 = {0, 10, 3, 0x8001, 5, 1}      # Cpu::pointer_width() == Bits32
 ARCH_WORD8 = {9, 12, 0x8002, 0x8003, 0x8004}
 # architectures where a frame recovered by stack scanning reveals which memory region was walked
-ARCH_SCAN = {0, 10, 9}
+ARCH_SCAN = {0, 10, 9, 5, 12, 0x8003}
 PLATFORMS = [2, 3, 0x8101, 0x8102, 0x8201, 0x8203, 0x8202, 0x8204, 0x8205, 1, 4, 0x8000, 0, 0x9999]
 OS_WIN, OS_MAC, OS_LINUX, OS_OTHER = "win", "mac", "linux", "other"
-ANCHOR = (0x70000000, 0x10000)
+ANCHOR = (0x70000000, 0x10000000)
 ANCHOR_WORD = 0x70000100
 
 
@@ -172,7 +172,7 @@ def canon_unl_model(s):
 class C14(PropBase):
     pid = "C14"
     coq_dirs = ["Base", "C08", "C14"]
-    translators = []
+    translators = ["c14_names.py"]
     bins = ["c14"]
     rule = ("a case describes a whole dump: CPU architecture x platform id, 0..32 threads (duplicate / missing ids, context valid / "
             "absent / wrong flags / truncated, own stack or null descriptor), thread names (duplicates, unreadable), exception record "
@@ -192,7 +192,7 @@ class C14(PropBase):
     assumptions = [
         "the text of crash reasons (Display) is not modelled: compared only as a function of (variant, payload)",
         "parsing of /proc/self/status is exercised, not modelled (the model receives the parsed Pid)",
-        "the stack memory chosen for a walk is observed through the first scanned frame on x86/amd64 only; on other CPUs the model's choice is not compared",
+        "the stack memory chosen for a walk is observed through the first scanned frame on x86, amd64, arm (not iOS), arm64 and old arm64 (64-bit CPUs: 8-byte aligned sp only; 32-bit: any alignment); on other CPUs the model's choice is not compared",
         "frames beyond frame 0 (the unwinder) belong to C03-C07; unloaded-module attribution is compared for frame 0",
     ]
     manifest = {
@@ -452,6 +452,11 @@ class C14(PropBase):
         return [self.gen_case(rng, dist) for _ in range(n)], dist, False
 
     # ------------------------------------------------------------------ canonical forms
+    @staticmethod
+    def scan_observable(case, arch):
+        # 32-bit ARM on iOS unwinds by frame pointer only (fp = 0 ends the walk): no scanned frame to observe
+        return arch in ARCH_SCAN and not (arch == 5 and case.split(" ", 2)[1] == "33026")
+
     def canon_impl(self, case, ans, profile):
         if ans.startswith("P;;"):
             return "P;;"
@@ -461,16 +466,26 @@ class C14(PropBase):
         th = []
         for f in parse_threads(d["T"]):
             tid, name, info, ip, sp, nframes, f1, unl = f
-            if arch in ARCH_SCAN and ip != "-" and int(sp) % (8 if arch in ARCH_WORD8 else 4) == 0:
+            if self.scan_observable(case, arch) and ip != "-" and (arch not in ARCH_WORD8 or int(sp) % 8 == 0):
                 if f1 == "-":
                     reg = "-1"
+                elif arch in ARCH_WORD8:
+                    j, r = divmod(int(f1) + 8 - ANCHOR_WORD, 16)      # the frame's instruction is the word minus 1..8
+                    reg = str(j) if r < 8 and 0 <= j < len(c.mems) else "x" + f1
                 else:
-                    j, r = divmod(int(f1) + 1 - ANCHOR_WORD, 16)
-                    reg = str(j) if r == 0 and 0 <= j < len(c.mems) else "x" + f1
+                    v = int(f1) + 8                                   # 0x7j7j7j7j minus 1..8
+                    j = (v >> 24) - 0x70
+                    reg = str(j) if 0 <= j < len(c.mems) and 0 <= 0x01010101 * (0x70 + j) - int(f1) <= 8 else "x" + f1
             else:
                 reg = "?"
             th.append(":".join([tid, name, info, ip, sp, reg, canon_unl_impl(unl)]))
-        return "T=%s;R=%s;X=%s;P=%s;C=%s;TM=%s;M=%s;U=%s" % (",".join(th), d["R"], d["X"], d["P"], d["C"], d["TM"], d["M"], d["U"])
+        r = ("#" + d["reason"]) if self.reason_predicted(d["X"]) else ""
+        return "T=%s;R=%s;X=%s;P=%s;C=%s;TM=%s;M=%s;U=%s%s" % (",".join(th), d["R"], d["X"], d["P"], d["C"], d["TM"], d["M"], d["U"], r)
+
+    # families whose Display the model predicts (all but WinError / WinErrorWithFacility / NtStatus / InPageError / MacResource / MacGuard)
+    @staticmethod
+    def reason_predicted(x):
+        return x != "-" and int(x.split(":")[1]) not in (15, 16, 25, 26, 27, 29)
 
     def canon_model(self, case, ans):
         arch = int(case.split(" ", 1)[0])
@@ -479,13 +494,14 @@ class C14(PropBase):
         th = []
         for f in parse_threads(d["T"]):
             tid, name, info, ip, sp, stack, room, unl = f
-            if arch in ARCH_SCAN and ip != "-" and int(sp) % wsize == 0:
+            if self.scan_observable(case, arch) and ip != "-" and (arch not in ARCH_WORD8 or int(sp) % 8 == 0):
                 reg = stack if int(stack) >= 0 and int(room) >= wsize else "-1"
             else:
                 reg = "?"
             th.append(":".join([tid, name, info, ip, sp, reg, canon_unl_model(unl)]))
         u = ",".join("%s:%s:u%02d" % tuple(x.split(":")[:2] + [int(x.split(":")[2])]) for x in d["U"].split(",")) if d["U"] else ""
-        return "T=%s;R=%s;X=%s;P=%s;C=%s;TM=%s;M=%s;U=%s" % (",".join(th), d["R"], d["X"], d["P"], d["C"], d["TM"], d["M"], u)
+        r = ("#" + d["reason"]) if self.reason_predicted(d["X"]) else ""
+        return "T=%s;R=%s;X=%s;P=%s;C=%s;TM=%s;M=%s;U=%s%s" % (",".join(th), d["R"], d["X"], d["P"], d["C"], d["TM"], d["M"], u, r)
 
     # ------------------------------------------------------------------ oracle (independent of the model)
     def oracle(self, case, ans, profile):
